@@ -14,6 +14,8 @@ from .. import core, sanitize, treework as tw
 VARIANT = "deflt-chk"
 INTS = [0, 1, -1, 7, 42, -42, 255, 4096, -4096, 10 ** 10, -10 ** 20, 2 ** 64, 123456789]
 FLOATS = [0.0, -0.0, 0.5, 1.0, -1.5, 3.14159, 1234.5678, -1234.5678, 1e-7, 1e16, 1e100, 123456789.123, 2.5, 0.0001, float("inf"), float("-inf"), float("nan")]
+# NaNs with the sign bit set / with payloads (Python never prints a sign for them unless asked)
+FLOATS += [struct.unpack("<d", struct.pack("<Q", b))[0] for b in (0xFFF8000000000000, 0x7FF8000000000001, 0xFFF0000000000001, 0xFFFFFFFFFFFFFFFF)]
 STRS = ["", "a", "abc", "héllo", "日本語", "x" * 12, "a b", "it's", 'q"q']
 BYTS = [b"", b"a", b"abc", b"hello", b"\x00\xff", b"x" * 12]
 
